@@ -1848,7 +1848,9 @@ fn cmu_cleanup(_pref_manager: Ref<PreferenceManager>, raw_braille: String) -> St
     // debug!("Before remove mode changes: '{}'", &result);
     // This reuses the code just for getting rid of unnecessary "L"s and "N"s
     let result = remove_unneeded_mode_changes(&result, UEB_Mode::Grade1, UEB_Duration::Passage);
-    let result = result.replace("𝑁N", "");
+    // "𝑁" says that the digits that follow continue a number: it cancels the numeric indicator when that comes next; in any other case
+    // (e.g., a typeface indicator is in between) it has nothing to cancel and must not be left in the output
+    let result = result.replace("𝑁N", "").replace('𝑁', "");
     // debug!(" After remove mode changes: '{}'", &result);
 
     let result = REPLACE_INDICATORS.replace_all(&result, |cap: &Captures| {
